@@ -1,5 +1,6 @@
 import TuModel.Model.Wire
 import TuModel.Model.Whitespace
+import TuModel.Model.FindSub
 namespace Tu.Drive
 open Tu Tu.Wire
 
@@ -28,6 +29,14 @@ def textD (op : String) (a : List Nat) : Option String :=
       | none => reject
   | "wb" => some <| match runP pGText a with
       | some t => ok (ePairs (wordBoundaries t)) | none => reject
+  | "findsub" => some <| match runP (do let g ← pBool; let t ← pText; let u ← pText; pure (g, t, u)) a with
+      -- find_substring_ignoring_whitespace(s, substring, g): the range of code-point positions of the match
+      | some (g, t, u) =>
+        if !g && !(singletons t && singletons u) then reject else
+        (match findSub t.flatten (u.filter (fun c => !isWsCl c)) with
+         | some (x, y) => ok [1, x, y]
+         | none => ok [0])
+      | none => reject
   | "remove" => some <| match runP pGText a with
       | some t => ok (eNats (removeWs t)) | none => reject
   | "full" => some <| match runP pGText a with
